@@ -120,12 +120,12 @@ class UMNDirHandler(DirHandler):
                 self.fileentries.append(linkentry)
                 continue
             if linkentry.selector in fileentriesdict:
-                if linkentry.gettype() == "X":
+                if linkentry.gettype() in ("X", "-"):
                     # It's special code to hide something.
                     self.fileentries.remove(fileentriesdict[linkentry.selector])
                 else:
                     self.mergeentries(fileentriesdict[linkentry.selector], linkentry)
-            elif linkentry.gettype() == "X":
+            elif linkentry.gettype() in ("X", "-"):
                 # Asked to hide something that is not listed anyway.
                 continue
             else:
